@@ -749,8 +749,11 @@ def _bypass_idiom(fx, kind, b, bb, t):
         return True, 'the protection keeps its pointer in a ManuallyDrop (released by Drop / into_inner)'
     if kind == 'ManuallyDrop::drop' and fn == '<strategy::hybrid::HybridProtection as std::ops::Drop>::drop':
         return True, 'Drop releases the owned pointer (LEDGER decides on which paths)'
-    if kind == 'discarded into_ptr':
-        # only after a successful RMW that installed as_ptr(&x)
+    if kind in ('discarded into_ptr', 'forget') and not (kind == 'forget' and not _ty_is_owned_ptr(_arg_ty(t, 0))):
+        # giving the local handle up after a successful RMW that installed as_ptr(&x): with mem::forget(x). `T::into_ptr(x)` with
+        # the result thrown away does the same to the count, but it CONVERTS a handle whose count already went with the exchange:
+        # another thread may have taken the value out and released it, and the conversion computes an address inside the freed
+        # allocation (Miri: dangling pointer; a real use-after-free for a RefCnt kind whose into_ptr reads the pointee)
         sites = [s for s in cx.summ.sites_by_body.get(b.key, ()) if s.op.startswith('compare_exchange') and b.dominates(s.bb, bb)]
         for s in sites:
             installed = b.origins(s.arg(2), binops=True)
@@ -779,9 +782,14 @@ def _bypass_idiom(fx, kind, b, bb, t):
                     elif tt['k'] == 'drop' and tt.get('has_param'):
                         risky.append('drop at %s' % b.loc(x))
                 if risky:
-                    return False, 'between the successful exchange (%s) and into_ptr(x) the value x is still owned although its pointer is published; ' \
+                    return False, 'between the successful exchange (%s) and the forgetting of x the value x is still owned although its pointer is published; ' \
                                   'a panic in %s would drop it (double release)' % (s.loc, ', '.join(risky))
-                return True, 'into_ptr(x) discarded right after the successful exchange that installed as_ptr(&x) (%s)' % s.loc
+                if kind == 'discarded into_ptr':
+                    return False, 'into_ptr(x) after the successful exchange (%s) that installed as_ptr(&x): the count went with the exchange, the value may be gone; ' \
+                                  'forget the handle with mem::forget(x) instead of converting it' % s.loc
+                return True, 'mem::forget(x) right after the successful exchange that installed as_ptr(&x) (%s)' % s.loc
+        if kind == 'forget':
+            return False, 'ownership-bypassing primitive outside the admitted idioms'
         return False, 'into_ptr result discarded without a dominating successful exchange of the same value'
     return False, 'ownership-bypassing primitive outside the admitted idioms'
 
